@@ -381,7 +381,7 @@ def main(tier: str, seed: int, replay: str | None = None) -> int:
     run.count('corpus_compiled_outputs_available', len(compiled))
     run_corpus(run, seed, ncorp, compiled)
     for c, m in (
-        ('output_checked', 8 if tier == 'quick' else 40),
+        ('output_checked', 8 if tier == 'quick' else 30),
         ('output_of_circuit', 1), ('output_of_unitary', 1),
         ('output_of_state', 1), ('output_of_system', 1),
         ('corpus_triples', 200), ('corpus_placement_nonmonotone', 10),
